@@ -552,7 +552,7 @@ func init() {
 			hosts := []struct {
 				h string
 				p int
-			}{{"127.0.0.1", 3478}, {"localhost", 5349}, {"::1", 1}}
+			}{{"127.0.0.1", 3478}, {"localhost", 5349}, {"::1", 1}, {"127.0.0.1", 0}, {"localhost", 65535}}
 			var j int64
 			for sc := 0; sc <= 4; sc++ {
 				for pr := 0; pr <= 2; pr++ {
